@@ -206,11 +206,6 @@ bool CodeWriterUtils::encode_offset64(uint64_t* dst, int64_t offset64, const Off
 
   // First handle all unsigned offset types.
   if (format.type() == OffsetType::kUnsignedOffset) {
-    // A negative displacement is never an unsigned value (with `bit_count + discard_lsb >= 64` it would otherwise fit).
-    if (offset64 < 0) {
-      return false;
-    }
-
     if (discard_lsb) {
       ASMJIT_ASSERT(discard_lsb <= 32);
       if ((offset64 & Support::lsb_mask<uint32_t>(discard_lsb)) != 0) {
